@@ -586,6 +586,11 @@ def m_syn_to_tokens(I, st, inst, args):
     if isinstance(node, Opaque) and node.kind == "Ident" and tname.endswith("Ident"):
         I.write(st, args[1], Opaque("TokenStream", ("toks", toks + (("i", node.data[0], node.data[1]),))))
         return UNIT
+    if tname.startswith(("syn::ImplGenerics", "syn::TypeGenerics", "syn::Turbofish")) and isinstance(node, Agg) and node.f and isinstance(node.f[0], Ptr):
+        # borrowed views of a Generics value that usually lives in a local of the caller: keep a snapshot of the referent
+        snap = I.read(st, node.f[0], expand_scalar=False)
+        I.write(st, args[1], Opaque("TokenStream", ("toks", toks + (("node", tname, node, origin, snap),))))
+        return UNIT
     I.write(st, args[1], Opaque("TokenStream", ("toks", toks + (("node", tname, node, origin),))))
     return UNIT
 
